@@ -65,6 +65,7 @@ def to_model(data_file: typing.IO, config: typing.Optional[STLReaderConfiguratio
       LOGGER.error("Bad TTI block")
       raise
     
-    progress_callback(i/m.get_tti_count())
+    if m.get_tti_count() > 0:
+      progress_callback(min(1, i/m.get_tti_count()))
 
   return m.get_document()
